@@ -107,6 +107,11 @@ class TerminalPredicate(BaseModel):
     logical_operator: LogicalOperatorEnum
     right_term: Union[float, int, str, tuple, Identifier]
 
+    class Config:
+        # keep each literal's own type: without this pydantic coerces
+        # left to right, turning 18 into 18.0 and "02134" into 2134.0
+        smart_union = True
+
 
 class RecursivePredicate(BaseModel):
     """
